@@ -16,7 +16,7 @@ PY = '/venv/bin/python'
 if os.path.realpath(sys.executable) != os.path.realpath(PY) and not os.environ.get('PMV_REEXEC'):
     env = dict(os.environ)
     env['PMV_REEXEC'] = '1'
-    env['PYTHONPATH'] = '/repo' + (os.pathsep + env['PYTHONPATH'] if env.get('PYTHONPATH') else '')
+    env['PYTHONPATH'] = env.get('PMV_REPO', '/repo') + (os.pathsep + env['PYTHONPATH'] if env.get('PYTHONPATH') else '')
     env['PYMODBUS_VERIF'] = '1'
     env['PYTHONDONTWRITEBYTECODE'] = '1'
     os.execve(PY, [PY, os.path.abspath(__file__)] + sys.argv[1:], env)
